@@ -43,10 +43,13 @@ inductive Trace : Prog → List Ev → Bool → Prop
   | loopStop {b t} : Trace b t true → Trace (.loop b) t true
   | loopGo {b t1 t2 st} : Trace b t1 false → Trace (.loop b) t2 st → Trace (.loop b) (t1 ++ t2) st
 
-/-- some write is followed, later in the trace, by an explicit raise -/
-def raw : List Ev → Bool
+/-- some write is followed, later in the trace, by an event of the kind `bad` -/
+def rawP (bad : Ev → Bool) : List Ev → Bool
   | [] => false
-  | e :: t => (e.isWrite && t.any Ev.isRaise) || raw t
+  | e :: t => (e.isWrite && t.any bad) || rawP bad t
+
+/-- some write is followed, later in the trace, by an explicit raise -/
+abbrev raw : List Ev → Bool := rawP Ev.isRaise
 
 /-- can fall through (some execution does not stop) -/
 def ft : Prog → Bool
@@ -64,20 +67,31 @@ def wo : Prog → Bool
   | .alt a b => wo a || wo b
   | .loop b => wo b
 
-def mayRaise : Prog → Bool
+/-- some execution contains an event of the kind `bad` -/
+def mayP (bad : Ev → Bool) : Prog → Bool
   | .skip => false
-  | .atom e => e.isRaise
-  | .seq a b => mayRaise a || mayRaise b
-  | .alt a b => mayRaise a || mayRaise b
-  | .loop b => mayRaise b
+  | .atom e => bad e
+  | .seq a b => mayP bad a || mayP bad b
+  | .alt a b => mayP bad a || mayP bad b
+  | .loop b => mayP bad b
 
-/-- the checker: no write that falls through into a part that may raise -/
-def ok : Prog → Bool
+abbrev mayRaise : Prog → Bool := mayP Ev.isRaise
+
+/-- the checker: no write that falls through into a part that may contain a `bad` event -/
+def okP (bad : Ev → Bool) : Prog → Bool
   | .skip => true
   | .atom _ => true
-  | .seq a b => ok a && ok b && !(wo a && mayRaise b)
-  | .alt a b => ok a && ok b
-  | .loop b => ok b && !(wo b && mayRaise b)
+  | .seq a b => okP bad a && okP bad b && !(wo a && mayP bad b)
+  | .alt a b => okP bad a && okP bad b
+  | .loop b => okP bad b && !(wo b && mayP bad b)
+
+/-- no explicit raise after a write -/
+abbrev ok : Prog → Bool := okP Ev.isRaise
+
+/-- a call of a helper outside the list `allow` -/
+def Ev.callOutside (allow : List String) : Ev → Bool
+  | .call h => !allow.contains h
+  | _ => false
 
 /-- every explicit raise is of one of the listed classes -/
 def raisesIn (allowed : List String) : Prog → Bool
@@ -88,13 +102,13 @@ def raisesIn (allowed : List String) : Prog → Bool
   | .alt a b => raisesIn allowed a && raisesIn allowed b
   | .loop b => raisesIn allowed b
 
-theorem raw_append (t1 t2 : List Ev) :
-    raw (t1 ++ t2) = (raw t1 || raw t2 || (t1.any Ev.isWrite && t2.any Ev.isRaise)) := by
+theorem rawP_append (bad : Ev → Bool) (t1 t2 : List Ev) :
+    rawP bad (t1 ++ t2) = (rawP bad t1 || rawP bad t2 || (t1.any Ev.isWrite && t2.any bad)) := by
   induction t1 with
-  | nil => simp [raw]
+  | nil => simp [rawP]
   | cons e t ih =>
-    simp only [List.cons_append, raw, ih, List.any_append, List.any_cons]
-    cases e.isWrite <;> cases raw t <;> cases raw t2 <;> cases t.any Ev.isRaise <;> cases t2.any Ev.isRaise <;>
+    simp only [List.cons_append, rawP, ih, List.any_append, List.any_cons]
+    cases e.isWrite <;> cases rawP bad t <;> cases rawP bad t2 <;> cases t.any bad <;> cases t2.any bad <;>
       cases t.any Ev.isWrite <;> rfl
 
 theorem trace_open {p t} (h : Trace p t false) : ft p = true ∧ (t.any Ev.isWrite = true → wo p = true) := by
@@ -128,64 +142,67 @@ theorem trace_open {p t} (h : Trace p t false) : ft p = true ∧ (t.any Ev.isWri
     · simpa [wo] using wa hw
     · exact wb hw
 
-theorem trace_raise {p t st} (h : Trace p t st) : t.any Ev.isRaise = true → mayRaise p = true := by
+theorem trace_may (bad : Ev → Bool) {p t st} (h : Trace p t st) : t.any bad = true → mayP bad p = true := by
   induction h with
   | skip => simp
-  | atom e => intro hr; simpa [mayRaise] using hr
-  | seqStop _ ih => intro hr; simp [mayRaise, ih hr]
+  | atom e => intro hr; simpa [mayP] using hr
+  | seqStop _ ih => intro hr; simp [mayP, ih hr]
   | seqGo _ _ iha ihb =>
     intro hr
     simp only [List.any_append, Bool.or_eq_true] at hr
     rcases hr with hr | hr
-    · simp [mayRaise, iha hr]
-    · simp [mayRaise, ihb hr]
-  | altL _ ih => intro hr; simp [mayRaise, ih hr]
-  | altR _ ih => intro hr; simp [mayRaise, ih hr]
+    · simp [mayP, iha hr]
+    · simp [mayP, ihb hr]
+  | altL _ ih => intro hr; simp [mayP, ih hr]
+  | altR _ ih => intro hr; simp [mayP, ih hr]
   | loopDone => simp
-  | loopStop _ ih => intro hr; simpa [mayRaise] using ih hr
+  | loopStop _ ih => intro hr; simpa [mayP] using ih hr
   | loopGo _ _ iha ihb =>
     intro hr
     simp only [List.any_append, Bool.or_eq_true] at hr
     rcases hr with hr | hr
-    · simpa [mayRaise] using iha hr
+    · simpa [mayP] using iha hr
     · exact ihb hr
 
-/-- **soundness of the checker**: if `ok p`, then on NO execution trace of `p` — through any nesting of branches,
-    loops (any number of iterations) and early returns — does an explicit raise come after a write to self -/
-theorem ok_sound {p t st} (h : Trace p t st) : ok p = true → raw t = false := by
+/-- **soundness of the checker**: if `okP bad p`, then on NO execution trace of `p` — through any nesting of
+    branches, loops (any number of iterations) and early returns — does a `bad` event come after a write to self -/
+theorem okP_sound (bad : Ev → Bool) {p t st} (h : Trace p t st) : okP bad p = true → rawP bad t = false := by
   induction h with
   | skip => intro _; rfl
-  | atom e => intro _; simp [raw]
-  | seqStop _ ih => intro hk; simp only [ok, Bool.and_eq_true] at hk; exact ih hk.1.1
+  | atom e => intro _; simp [rawP]
+  | seqStop _ ih => intro hk; simp only [okP, Bool.and_eq_true] at hk; exact ih hk.1.1
   | @seqGo a b t1 t2 st h1 h2 iha ihb =>
     intro hk
-    simp only [ok, Bool.and_eq_true] at hk
+    simp only [okP, Bool.and_eq_true] at hk
     obtain ⟨⟨ka, kb⟩, kx⟩ := hk
-    rw [raw_append, iha ka, ihb kb]
+    rw [rawP_append, iha ka, ihb kb]
     cases hw : t1.any Ev.isWrite
     · simp
-    · cases hr : t2.any Ev.isRaise
+    · cases hr : t2.any bad
       · simp
       · have := (trace_open h1).2 hw
-        have := trace_raise h2 hr
+        have := trace_may bad h2 hr
         simp_all
-  | altL _ ih => intro hk; simp only [ok, Bool.and_eq_true] at hk; exact ih hk.1
-  | altR _ ih => intro hk; simp only [ok, Bool.and_eq_true] at hk; exact ih hk.2
+  | altL _ ih => intro hk; simp only [okP, Bool.and_eq_true] at hk; exact ih hk.1
+  | altR _ ih => intro hk; simp only [okP, Bool.and_eq_true] at hk; exact ih hk.2
   | loopDone => intro _; rfl
-  | loopStop _ ih => intro hk; simp only [ok, Bool.and_eq_true] at hk; exact ih hk.1
+  | loopStop _ ih => intro hk; simp only [okP, Bool.and_eq_true] at hk; exact ih hk.1
   | @loopGo b t1 t2 st h1 h2 iha ihb =>
     intro hk
     have hk' := hk
-    simp only [ok, Bool.and_eq_true] at hk'
+    simp only [okP, Bool.and_eq_true] at hk'
     obtain ⟨kb, kx⟩ := hk'
-    rw [raw_append, iha kb, ihb hk]
+    rw [rawP_append, iha kb, ihb hk]
     cases hw : t1.any Ev.isWrite
     · simp
-    · cases hr : t2.any Ev.isRaise
+    · cases hr : t2.any bad
       · simp
       · have := (trace_open h1).2 hw
-        have := trace_raise h2 hr
-        simp_all [mayRaise]
+        have := trace_may bad h2 hr
+        simp_all [mayP]
+
+/-- the instance used for "no explicit raise after a write" -/
+theorem ok_sound {p t st} (h : Trace p t st) : ok p = true → raw t = false := okP_sound Ev.isRaise h
 
 /-- soundness of the class check: every raise event on every trace is of an allowed class -/
 theorem raisesIn_sound (allowed : List String) {p t st} (h : Trace p t st) :
